@@ -5,8 +5,21 @@ import (
 	"go/ast"
 	"go/printer"
 	"go/token"
+	"os"
+	"path/filepath"
+	"strconv"
 	"strings"
 )
+
+// C09: structural facts of pkg/partition/partition.go (truncate, Service.Truncate, truncateGlobally, deleteJournal)
+// and pkg/tmindex/cindex.go (chkInfo.update) the TRUNCATE model is parameterised by.
+//
+// The facts are matched by STRUCTURE, not by spelling: local variable names are free, calls to helpers of the same
+// package are followed (depth <= 2, at the call site, in statement order), `idx--; … cks[idx]` and `… cks[idx-1]`
+// are the same thing, an early return `if empty || DryRun { return }`, its switch form and an enclosing
+// `if !empty && !DryRun { delete }` are the same thing. Field and method names of the package's API (MaxSrcSize,
+// MinSrcSize, OldestTs, MaxTs, DryRun, ChunksDeleted, LatestTs, Src, Size(), DeleteChunks, LockExclusively, …) are
+// what the matching holds on to.
 
 func c09NodeString(n ast.Node) string {
 	var b bytes.Buffer
@@ -14,59 +27,378 @@ func c09NodeString(n ast.Node) string {
 	return b.String()
 }
 
-// C09: structural facts of pkg/partition/partition.go the TRUNCATE model is parameterised by:
-// the comparison operator of the time loop, whether both loops re-check MinSrcSize, whether the deletion is
-// guarded by DryRun and addresses cks[idx-1], and the constants of truncateGlobally's inner call.
+func c09Norm(n ast.Node) string {
+	return strings.Join(strings.Fields(c09NodeString(n)), "")
+}
+
+// c09Pkg indexes the function declarations of one package directory (non-test files) by name.
+type c09Pkg map[string]*ast.FuncDecl
+
+func c09LoadPkg(relDir string) c09Pkg {
+	p := c09Pkg{}
+	ents, err := os.ReadDir(filepath.Join(repo, relDir))
+	if err != nil {
+		return p
+	}
+	for _, e := range ents {
+		n := e.Name()
+		if e.IsDir() || !strings.HasSuffix(n, ".go") || strings.HasSuffix(n, "_test.go") || strings.Contains(n, "_verif") {
+			continue
+		}
+		f := parseFile(filepath.Join(relDir, n))
+		if f == nil {
+			continue
+		}
+		for _, d := range f.Decls {
+			if fd, ok := d.(*ast.FuncDecl); ok && fd.Body != nil {
+				if _, dup := p[fd.Name.Name]; !dup {
+					p[fd.Name.Name] = fd
+				}
+			}
+		}
+	}
+	return p
+}
+
+// walk visits the nodes of fd's body in source order; when it meets a call of a same-package function or method it
+// visits that helper's body right there (depth levels deep). The callee is found by name: a plain identifier, or a
+// selector on the receiver (or any identifier) whose selected name is a function of the package.
+func (p c09Pkg) walk(fd *ast.FuncDecl, depth int, visit func(n ast.Node, inHelper bool)) {
+	var rec func(body ast.Node, d int, helper bool, seen map[string]bool)
+	rec = func(body ast.Node, d int, helper bool, seen map[string]bool) {
+		ast.Inspect(body, func(n ast.Node) bool {
+			if n == nil {
+				return true
+			}
+			visit(n, helper)
+			if ce, ok := n.(*ast.CallExpr); ok && d > 0 {
+				name := ""
+				switch f := ce.Fun.(type) {
+				case *ast.Ident:
+					name = f.Name
+				case *ast.SelectorExpr:
+					if _, ok := f.X.(*ast.Ident); ok {
+						name = f.Sel.Name
+					}
+				}
+				if h, ok := p[name]; ok && name != fd.Name.Name && !seen[name] && h != fd {
+					// only plain helpers: do not wander into the package's other entry points through interfaces
+					if id, isIdent := ce.Fun.(*ast.Ident); isIdent || c09IsReceiver(fd, ce.Fun) {
+						_ = id
+						seen2 := map[string]bool{name: true}
+						for k := range seen {
+							seen2[k] = true
+						}
+						rec(h.Body, d-1, true, seen2)
+					}
+				}
+			}
+			return true
+		})
+	}
+	rec(fd.Body, depth, false, map[string]bool{})
+}
+
+func c09IsReceiver(fd *ast.FuncDecl, fun ast.Expr) bool {
+	se, ok := fun.(*ast.SelectorExpr)
+	if !ok || fd.Recv == nil || len(fd.Recv.List) != 1 || len(fd.Recv.List[0].Names) != 1 {
+		return false
+	}
+	id, ok := se.X.(*ast.Ident)
+	return ok && id.Name == fd.Recv.List[0].Names[0].Name
+}
+
+// selName returns the selected field/method name of a selector expression ("" otherwise)
+func selName(e ast.Expr) string {
+	if se, ok := e.(*ast.SelectorExpr); ok {
+		return se.Sel.Name
+	}
+	return ""
+}
+
+func hasSel(n ast.Node, name string) bool {
+	found := false
+	ast.Inspect(n, func(m ast.Node) bool {
+		if se, ok := m.(*ast.SelectorExpr); ok && se.Sel.Name == name {
+			found = true
+		}
+		return !found
+	})
+	return found
+}
+
+func callsMethod(n ast.Node, name string) bool {
+	found := false
+	ast.Inspect(n, func(m ast.Node) bool {
+		if ce, ok := m.(*ast.CallExpr); ok && selName(ce.Fun) == name {
+			found = true
+		}
+		return !found
+	})
+	return found
+}
+
+func intLit(e ast.Expr) (int64, bool) {
+	if p, ok := e.(*ast.ParenExpr); ok {
+		return intLit(p.X)
+	}
+	if bl, ok := e.(*ast.BasicLit); ok && bl.Kind == token.INT {
+		v, err := strconv.ParseInt(bl.Value, 0, 64)
+		return v, err == nil
+	}
+	return 0, false
+}
+
+// idxOffset reads `v`, `v-k`, `v+k` for the identifier v: returns k' with expr = v + k'
+func idxOffset(e ast.Expr, v string) (int64, bool) {
+	switch x := e.(type) {
+	case *ast.ParenExpr:
+		return idxOffset(x.X, v)
+	case *ast.Ident:
+		return 0, x.Name == v
+	case *ast.BinaryExpr:
+		if id, ok := x.X.(*ast.Ident); ok && id.Name == v {
+			if k, ok := intLit(x.Y); ok {
+				if x.Op == token.SUB {
+					return -k, true
+				}
+				if x.Op == token.ADD {
+					return k, true
+				}
+			}
+		}
+	}
+	return 0, false
+}
+
+// flattenOr / flattenAnd split a condition at its top-level || / &&
+func flattenBin(e ast.Expr, op token.Token) []ast.Expr {
+	if p, ok := e.(*ast.ParenExpr); ok {
+		return flattenBin(p.X, op)
+	}
+	if be, ok := e.(*ast.BinaryExpr); ok && be.Op == op {
+		return append(flattenBin(be.X, op), flattenBin(be.Y, op)...)
+	}
+	return []ast.Expr{e}
+}
+
+func returns(body *ast.BlockStmt) bool {
+	for _, st := range body.List {
+		if _, ok := st.(*ast.ReturnStmt); ok {
+			return true
+		}
+	}
+	return false
+}
+
 func init() {
 	generators["C09"] = func() {
-		l := newLean("C09", "Facts about pkg/partition/partition.go (truncate, truncateGlobally) and pkg/backend/admin.go (cmdTruncate).")
+		l := newLean("C09", "Facts about pkg/partition/partition.go (truncate, Service.Truncate, truncateGlobally, deleteJournal), pkg/tmindex/cindex.go (chkInfo.update).")
+		pp := c09LoadPkg("pkg/partition")
 		f := parseFile("pkg/partition/partition.go")
-		fd := funcDecl(f, "Service", "truncate")
+
+		// ---------------------------------------------------------------------------------- truncate
 		strict, strictFound := false, false
-		sizeChecksMin, timeChecksMin := false, false
-		sizeGuard := false
-		decr, dryGuard, delIdx := false, false, false
-		readsJournalSize, loopsRereadChunkSize, totalIsSnapshotSum := false, false, false
-		exprStr := func(e ast.Expr) string { return c09NodeString(e) }
+		sizeChecksMin, timeChecksMin, sizeGuard := false, false, false
+		readsJournalSize, loopsReread, snapshotSum := false, false, false
+		delMinusOne, dryGuard := false, false
+		fd := funcDecl(f, "Service", "truncate")
 		if fd == nil {
 			problem("partition.Service.truncate not found")
 		} else {
-			sawDecr, sawDry := false, false
-			ast.Inspect(fd.Body, func(n ast.Node) bool {
-				if ce, ok := n.(*ast.CallExpr); ok && exprStr(ce.Fun) == "jrnl.Size" {
-					readsJournalSize = true
+			// the journal parameter: the one whose type is journal.Journal
+			jrnl := ""
+			for _, fl := range fd.Type.Params.List {
+				if c09Norm(fl.Type) == "journal.Journal" && len(fl.Names) == 1 {
+					jrnl = fl.Names[0].Name
 				}
-				if be, ok := n.(*ast.BinaryExpr); ok && be.Op == token.SUB && strings.Contains(exprStr(be.Y), "cks[idx].Size()") {
-					loopsRereadChunkSize = true
-				}
-				if as, ok := n.(*ast.AssignStmt); ok && len(as.Lhs) == 1 && len(as.Rhs) == 1 {
-					l, r := strings.ReplaceAll(exprStr(as.Lhs[0]), " ", ""), strings.ReplaceAll(exprStr(as.Rhs[0]), " ", "")
-					if as.Tok == token.ADD_ASSIGN && l == "size" && r == "sizes[i]" {
-						totalIsSnapshotSum = true
+			}
+			// the index variable: the one the chooser loops increment
+			idxVar := ""
+			pp.walk(fd, 2, func(n ast.Node, _ bool) {
+				if fs, ok := n.(*ast.ForStmt); ok && fs.Cond != nil && (hasSel(fs.Cond, "MaxSrcSize") || hasSel(fs.Cond, "MaxTs")) {
+					if inc, ok := fs.Post.(*ast.IncDecStmt); ok && inc.Tok == token.INC {
+						if id, ok := inc.X.(*ast.Ident); ok {
+							idxVar = id.Name
+						}
 					}
-					if as.Tok == token.SUB_ASSIGN && l == "size" && r != "sizes[idx]" {
-						loopsRereadChunkSize = true
+				}
+			})
+			decrs := int64(0)            // decrements of the index variable met so far (statement order)
+			copies := map[string]int64{} // n := idx  →  n = orig - copies[n]
+			guardOK := false             // an emptiness-or-DryRun guard that leaves before the deletion was met
+			var enclosing []*ast.IfStmt  // if-statements whose body we are in (for the `if !empty && !DryRun { delete }` form)
+			emptyTest := func(e ast.Expr, neg bool) bool {
+				// is e "no chunk was chosen" (neg=false) / "some chunk was chosen" (neg=true), for the index value at this point?
+				be, ok := e.(*ast.BinaryExpr)
+				if !ok {
+					if p, ok := e.(*ast.ParenExpr); ok {
+						be, ok = p.X.(*ast.BinaryExpr)
+						if !ok {
+							return false
+						}
+					} else {
+						return false
 					}
 				}
+				id, ok := be.X.(*ast.Ident)
+				k, ok2 := intLit(be.Y)
+				if !ok || !ok2 {
+					return false
+				}
+				d := int64(-1)
+				if id.Name == idxVar {
+					d = decrs
+				} else if c, ok := copies[id.Name]; ok {
+					d = c
+				}
+				if d < 0 {
+					return false
+				}
+				// the variable holds orig-d with orig >= 0:  var OP k  ⇔  orig OP k+d
+				kk := k + d
+				if !neg {
+					return (be.Op == token.LSS && kk == 1) || (be.Op == token.LEQ && kk == 0) || (be.Op == token.EQL && kk == 0)
+				}
+				return (be.Op == token.GTR && kk == 0) || (be.Op == token.GEQ && kk == 1) || (be.Op == token.NEQ && kk == 0)
+			}
+			isDry := func(e ast.Expr) bool { return selName(e) == "DryRun" }
+			isNotDry := func(e ast.Expr) bool {
+				u, ok := e.(*ast.UnaryExpr)
+				return ok && u.Op == token.NOT && selName(u.X) == "DryRun"
+			}
+			orGuard := func(conds []ast.Expr) bool {
+				e, d := false, false
+				for _, c := range conds {
+					if emptyTest(c, false) {
+						e = true
+					}
+					if isDry(c) {
+						d = true
+					}
+				}
+				return e && d
+			}
+			var stack []ast.Node
+			pp.walk(fd, 2, func(n ast.Node, inHelper bool) {
+				_ = stack
 				switch s := n.(type) {
+				case *ast.CallExpr:
+					// jrnl.Size() anywhere in truncate or its helpers
+					if se, ok := s.Fun.(*ast.SelectorExpr); ok && se.Sel.Name == "Size" {
+						if id, ok := se.X.(*ast.Ident); ok && id.Name == jrnl && jrnl != "" {
+							readsJournalSize = true
+						}
+					}
+					if selName(s.Fun) == "DeleteChunks" && len(s.Args) >= 2 {
+						// the id argument: <list>[E].Id()
+						if ce, ok := s.Args[1].(*ast.CallExpr); ok && selName(ce.Fun) == "Id" {
+							if ie, ok := ce.Fun.(*ast.SelectorExpr).X.(*ast.IndexExpr); ok {
+								if off, ok := idxOffset(ie.Index, idxVar); ok {
+									delMinusOne = off-decrs == -1
+								}
+							}
+						}
+						dryGuard = guardOK
+						for _, is := range enclosing {
+							// if some && !DryRun { … DeleteChunks … }
+							cs := flattenBin(is.Cond, token.LAND)
+							e, d := false, false
+							for _, c := range cs {
+								if emptyTest(c, true) {
+									e = true
+								}
+								if isNotDry(c) {
+									d = true
+								}
+							}
+							if e && d && s.Pos() >= is.Body.Pos() && s.End() <= is.Body.End() {
+								dryGuard = true
+							}
+						}
+					}
+				case *ast.IncDecStmt:
+					if id, ok := s.X.(*ast.Ident); ok && id.Name == idxVar && s.Tok == token.DEC && !inHelper {
+						decrs++
+					}
+				case *ast.AssignStmt:
+					if len(s.Lhs) == 1 && len(s.Rhs) == 1 {
+						if id, ok := s.Lhs[0].(*ast.Ident); ok {
+							if id.Name == idxVar && s.Tok == token.SUB_ASSIGN {
+								if k, ok := intLit(s.Rhs[0]); ok {
+									decrs += k
+								}
+							}
+							if r, ok := s.Rhs[0].(*ast.Ident); ok && r.Name == idxVar && (s.Tok == token.DEFINE || s.Tok == token.ASSIGN) && id.Name != idxVar {
+								copies[id.Name] = decrs
+							}
+						}
+					}
+				case *ast.IfStmt:
+					enclosing = append(enclosing, s)
+					if orGuard(flattenBin(s.Cond, token.LOR)) && returns(s.Body) {
+						guardOK = true
+					}
+					// `Max > 0 && Max > Min` guarding the size loop
+					gt0, gtMin := false, false
+					for _, c := range flattenBin(s.Cond, token.LAND) {
+						if be, ok := c.(*ast.BinaryExpr); ok && be.Op == token.GTR && selName(be.X) == "MaxSrcSize" {
+							if k, ok := intLit(be.Y); ok && k == 0 {
+								gt0 = true
+							}
+							if selName(be.Y) == "MinSrcSize" {
+								gtMin = true
+							}
+						}
+					}
+					if gt0 && gtMin {
+						// it must contain the size loop
+						ast.Inspect(s.Body, func(m ast.Node) bool {
+							if fs, ok := m.(*ast.ForStmt); ok && fs.Cond != nil && hasSel(fs.Cond, "MaxSrcSize") {
+								sizeGuard = true
+							}
+							return true
+						})
+					}
+				case *ast.SwitchStmt:
+					if s.Tag == nil {
+						for _, cc := range s.Body.List {
+							if c, ok := cc.(*ast.CaseClause); ok && orGuard(c.List) {
+								for _, st := range c.Body {
+									if _, ok := st.(*ast.ReturnStmt); ok {
+										guardOK = true
+									}
+								}
+							}
+						}
+					}
 				case *ast.ForStmt:
 					if s.Cond == nil {
-						return true
+						return
 					}
-					c := exprStr(s.Cond)
-					isTime := strings.Contains(c, "MaxTs")
-					isSize := strings.Contains(c, "MaxSrcSize")
+					isTime := hasSel(s.Cond, "MaxTs") && hasSel(s.Cond, "OldestTs")
+					isSize := hasSel(s.Cond, "MaxSrcSize")
+					if !isTime && !isSize {
+						return
+					}
+					if callsMethod(s.Cond, "Size") || callsMethod(s.Body, "Size") {
+						loopsReread = true
+					}
 					chkMin := false
-					ast.Inspect(s.Cond, func(m ast.Node) bool {
-						be, ok := m.(*ast.BinaryExpr)
+					for _, c := range flattenBin(s.Cond, token.LAND) {
+						be, ok := c.(*ast.BinaryExpr)
 						if !ok {
-							return true
+							continue
 						}
-						l, r := exprStr(be.X), exprStr(be.Y)
-						if be.Op == token.GEQ && strings.Contains(r, "MinSrcSize") && (strings.ReplaceAll(l, " ", "") == "size-sizes[idx]" || strings.Contains(strings.ReplaceAll(l, " ", ""), "size-uint64(cks[idx].Size())")) {
-							chkMin = true
+						// <total> - <one chunk's size> >= <…>.MinSrcSize
+						if be.Op == token.GEQ && selName(be.Y) == "MinSrcSize" {
+							if sub, ok := be.X.(*ast.BinaryExpr); ok && sub.Op == token.SUB {
+								if _, isIdx := sub.Y.(*ast.IndexExpr); isIdx || callsMethod(sub.Y, "Size") {
+									chkMin = true
+								}
+							}
 						}
-						if isTime && strings.Contains(l, "MaxTs") && strings.Contains(r, "OldestTs") {
+						if isTime && hasSel(be.X, "MaxTs") && hasSel(be.Y, "OldestTs") {
 							switch be.Op {
 							case token.LSS:
 								strict, strictFound = true, true
@@ -74,226 +406,328 @@ func init() {
 								strict, strictFound = false, true
 							}
 						}
-						return true
-					})
+					}
 					if isTime {
 						timeChecksMin = chkMin
 					}
 					if isSize {
 						sizeChecksMin = chkMin
 					}
-				case *ast.IfStmt:
-					c := exprStr(s.Cond)
-					if strings.Contains(c, "tp.MaxSrcSize > 0") && strings.Contains(c, "tp.MaxSrcSize > tp.MinSrcSize") {
-						sizeGuard = true
-					}
-					if strings.Contains(c, "idx < 0") && strings.Contains(c, "tp.DryRun") && sawDecr {
-						// the body must return
-						for _, st := range s.Body.List {
-							if _, ok := st.(*ast.ReturnStmt); ok {
-								sawDry = true
-							}
+				case *ast.RangeStmt:
+					// A[i] = uint64(v.Size()); T += A[i]   (names free)
+					var arr, idx string
+					ast.Inspect(s.Body, func(m ast.Node) bool {
+						as, ok := m.(*ast.AssignStmt)
+						if !ok || len(as.Lhs) != 1 || len(as.Rhs) != 1 {
+							return true
 						}
-					}
-				case *ast.IncDecStmt:
-					if id, ok := s.X.(*ast.Ident); ok && id.Name == "idx" && s.Tok == token.DEC {
-						sawDecr = true
-					}
-				case *ast.CallExpr:
-					if se, ok := s.Fun.(*ast.SelectorExpr); ok && se.Sel.Name == "DeleteChunks" && len(s.Args) >= 2 {
-						decr = sawDecr
-						dryGuard = sawDry
-						delIdx = exprStr(s.Args[1]) == "cks[idx].Id()"
-					}
+						if ie, ok := as.Lhs[0].(*ast.IndexExpr); ok && as.Tok == token.ASSIGN && callsMethod(as.Rhs[0], "Size") {
+							arr, idx = c09Norm(ie.X), c09Norm(ie.Index)
+						}
+						if ie, ok := as.Rhs[0].(*ast.IndexExpr); ok && as.Tok == token.ADD_ASSIGN && arr != "" &&
+							c09Norm(ie.X) == arr && c09Norm(ie.Index) == idx {
+							snapshotSum = true
+						}
+						return true
+					})
 				}
-				return true
 			})
 			if !strictFound {
-				problem("partition.Service.truncate: comparison of sc[idx].MaxTs with tp.OldestTs not found")
+				problem("partition.Service.truncate: comparison of a chunk's MaxTs with OldestTs not found in a loop condition")
 			}
 		}
+
+		// ---------------------------------------------------------------------------------- truncateGlobally
 		gmin, gmax := int64(-1), int64(-1)
+		deltaIsLen, dryDeltaSubtracts := false, false
 		gd := funcDecl(f, "Service", "truncateGlobally")
-		dryDelta := ""
-		dryDeltaSubtracts := false
 		if gd == nil {
 			problem("partition.Service.truncateGlobally not found")
 		} else {
-			ast.Inspect(gd.Body, func(n ast.Node) bool {
-				ce, ok := n.(*ast.CallExpr)
-				if !ok {
-					return true
-				}
-				se, ok := ce.Fun.(*ast.SelectorExpr)
-				if !ok || se.Sel.Name != "truncate" {
-					return true
-				}
-				for _, a := range ce.Args {
-					ue, ok := a.(*ast.UnaryExpr)
-					if !ok {
-						continue
+			deltaVar := ""
+			pp.walk(gd, 1, func(n ast.Node, _ bool) {
+				switch s := n.(type) {
+				case *ast.CallExpr:
+					if selName(s.Fun) != "truncate" {
+						return
 					}
-					cl, ok := ue.X.(*ast.CompositeLit)
-					if !ok {
-						continue
-					}
-					for _, el := range cl.Elts {
-						kv, ok := el.(*ast.KeyValueExpr)
+					for _, a := range s.Args {
+						ue, ok := a.(*ast.UnaryExpr)
 						if !ok {
 							continue
 						}
-						k := exprStr(kv.Key)
-						if bl, ok := kv.Value.(*ast.BasicLit); ok && bl.Kind == token.INT {
-							v := int64(0)
-							for _, ch := range bl.Value {
-								v = v*10 + int64(ch-'0')
-							}
-							if k == "MinSrcSize" {
-								gmin = v
-							}
-							if k == "MaxSrcSize" {
-								gmax = v
+						cl, ok := ue.X.(*ast.CompositeLit)
+						if !ok {
+							continue
+						}
+						for _, el := range cl.Elts {
+							if kv, ok := el.(*ast.KeyValueExpr); ok {
+								if v, ok := intLit(kv.Value); ok {
+									switch c09Norm(kv.Key) {
+									case "MinSrcSize":
+										gmin = v
+									case "MaxSrcSize":
+										gmax = v
+									}
+								}
 							}
 						}
 					}
-				}
-				return true
-			})
-			ast.Inspect(gd.Body, func(n ast.Node) bool {
-				as, ok := n.(*ast.AssignStmt)
-				if ok && len(as.Lhs) == 1 && exprStr(as.Lhs[0]) == "ti.ChunksDeleted" && as.Tok == token.ADD_ASSIGN {
-					dryDelta = exprStr(as.Rhs[0])
-				}
-				return true
-			})
-			ast.Inspect(gd.Body, func(n ast.Node) bool {
-				is, ok := n.(*ast.IfStmt)
-				if !ok || exprStr(is.Cond) != "tp.DryRun" {
-					return true
-				}
-				for _, st := range is.Body.List {
-					if as, ok := st.(*ast.AssignStmt); ok && as.Tok == token.SUB_ASSIGN && len(as.Lhs) == 1 &&
-						exprStr(as.Lhs[0]) == dryDelta && exprStr(as.Rhs[0]) == "ti.ChunksDeleted" {
-						dryDeltaSubtracts = true
+				case *ast.AssignStmt:
+					if len(s.Lhs) != 1 || len(s.Rhs) != 1 {
+						return
+					}
+					// <x>.ChunksDeleted += V
+					if s.Tok == token.ADD_ASSIGN && selName(s.Lhs[0]) == "ChunksDeleted" {
+						if id, ok := s.Rhs[0].(*ast.Ident); ok {
+							deltaVar = id.Name
+						} else if ce, ok := s.Rhs[0].(*ast.CallExpr); ok && c09Norm(ce.Fun) == "len" {
+							deltaIsLen = true // the unrepaired shape: += len(cks) unconditionally
+						}
 					}
 				}
-				return true
 			})
+			if deltaVar != "" {
+				pp.walk(gd, 1, func(n ast.Node, _ bool) {
+					switch s := n.(type) {
+					case *ast.AssignStmt:
+						if len(s.Lhs) == 1 && len(s.Rhs) == 1 && c09Norm(s.Lhs[0]) == deltaVar && (s.Tok == token.DEFINE || s.Tok == token.ASSIGN) {
+							if ce, ok := s.Rhs[0].(*ast.CallExpr); ok && c09Norm(ce.Fun) == "len" {
+								deltaIsLen = true
+							}
+						}
+					case *ast.IfStmt:
+						if selName(s.Cond) == "DryRun" {
+							for _, st := range s.Body.List {
+								if as, ok := st.(*ast.AssignStmt); ok && as.Tok == token.SUB_ASSIGN && len(as.Lhs) == 1 &&
+									c09Norm(as.Lhs[0]) == deltaVar && selName(as.Rhs[0]) == "ChunksDeleted" {
+									dryDeltaSubtracts = true
+								}
+							}
+						}
+					}
+				})
+			}
 			if gmin < 0 || gmax < 0 {
 				problem("partition.Service.truncateGlobally: inner truncate call with literal MinSrcSize/MaxSrcSize not found")
 				gmin, gmax = 0, 0
 			}
 		}
-		// the sorted insertion of Service.Truncate: predicate of sort.Search
-		tieBreak := ""
+
+		// ---------------------------------------------------------------------------------- Service.Truncate: sorted insertion
+		insertOK, insertFound := false, false
 		if td := funcDecl(f, "Service", "Truncate"); td == nil {
 			problem("partition.Service.Truncate not found")
 		} else {
 			ast.Inspect(td.Body, func(n ast.Node) bool {
 				ce, ok := n.(*ast.CallExpr)
-				if !ok || exprStr(ce.Fun) != "sort.Search" || len(ce.Args) != 2 {
+				if !ok || c09Norm(ce.Fun) != "sort.Search" || len(ce.Args) != 2 {
 					return true
 				}
-				if fl, ok := ce.Args[1].(*ast.FuncLit); ok {
-					ast.Inspect(fl.Body, func(m ast.Node) bool {
-						if rs, ok := m.(*ast.ReturnStmt); ok && len(rs.Results) == 1 {
-							tieBreak = strings.Join(strings.Fields(exprStr(rs.Results[0])), " ")
+				fl, ok := ce.Args[1].(*ast.FuncLit)
+				if !ok {
+					return true
+				}
+				// aliases inside the predicate: si := sortedInfos[idx]
+				alias := map[string]string{}
+				var ret ast.Expr
+				ast.Inspect(fl.Body, func(m ast.Node) bool {
+					switch s := m.(type) {
+					case *ast.AssignStmt:
+						if len(s.Lhs) == 1 && len(s.Rhs) == 1 && s.Tok == token.DEFINE {
+							if id, ok := s.Lhs[0].(*ast.Ident); ok {
+								alias[id.Name] = c09Norm(s.Rhs[0])
+							}
 						}
-						return true
-					})
+					case *ast.ReturnStmt:
+						if len(s.Results) == 1 {
+							ret = s.Results[0]
+						}
+					}
+					return true
+				})
+				if ret == nil {
+					return false
+				}
+				insertFound = true
+				// rename the two things whose fields are compared: the element at the searched index → A, the new entry → B
+				txt := c09Norm(ret)
+				bases := map[string]bool{}
+				ast.Inspect(ret, func(m ast.Node) bool {
+					if se, ok := m.(*ast.SelectorExpr); ok && (se.Sel.Name == "LatestTs" || se.Sel.Name == "Src") {
+						bases[c09Norm(se.X)] = true
+					}
+					return true
+				})
+				if len(bases) == 2 {
+					var a, b string
+					for base := range bases {
+						full := base
+						if v, ok := alias[base]; ok {
+							full = v
+						}
+						if strings.Contains(full, "[") {
+							a = base
+						} else {
+							b = base
+						}
+					}
+					if a != "" && b != "" {
+						txt = strings.ReplaceAll(txt, a+".", "A.")
+						txt = strings.ReplaceAll(txt, b+".", "B.")
+						txt = strings.NewReplacer("(", "", ")", "").Replace(txt)
+						insertOK = txt == "A.LatestTs<B.LatestTs||A.LatestTs==B.LatestTs&&A.Src>=B.Src"
+					}
 				}
 				return false
 			})
-			if tieBreak == "" {
+			if !insertFound {
 				problem("partition.Service.Truncate: sort.Search predicate of the sorted insertion not found")
 			}
 		}
-		// chkInfo.update of the time index: two independent ifs?
-		indep, indepFound := false, false
-		if cf := parseFile("pkg/tmindex/cindex.go"); cf != nil {
-			if ud := funcDecl(cf, "chkInfo", "update"); ud != nil {
-				var ifs []*ast.IfStmt
-				for _, st := range ud.Body.List {
-					if is, ok := st.(*ast.IfStmt); ok {
-						ifs = append(ifs, is)
-					}
-				}
-				norm := func(e ast.Expr) string { return strings.ReplaceAll(exprStr(e), " ", "") }
-				if len(ifs) == 2 && ifs[0].Else == nil && ifs[1].Else == nil &&
-					norm(ifs[0].Cond) == "ci.MinTs>rInfo.MinTs" && norm(ifs[1].Cond) == "ci.MaxTs<rInfo.MaxTs" {
-					indep, indepFound = true, true
-				} else if len(ifs) == 1 && ifs[0].Else != nil && norm(ifs[0].Cond) == "ci.MinTs>rInfo.MinTs" {
-					if e, ok := ifs[0].Else.(*ast.IfStmt); ok && norm(e.Cond) == "ci.MaxTs<rInfo.MaxTs" {
-						indep, indepFound = false, true
-					}
-				}
-			}
-		}
-		if !indepFound {
-			problem("tmindex.chkInfo.update: neither two independent ifs nor if/else-if on MinTs/MaxTs")
-		}
-		// deleteJournal: size re-check between LockExclusively and TIndex.Delete
+
+		// ---------------------------------------------------------------------------------- deleteJournal
 		recheck := false
 		if dd := funcDecl(f, "Service", "deleteJournal"); dd == nil {
 			problem("partition.Service.deleteJournal not found")
 		} else {
 			locked, deleted := false, false
-			for _, st := range dd.Body.List {
-				txt := strings.ReplaceAll(c09NodeString(st), " ", "")
-				if strings.Contains(txt, "LockExclusively(") {
-					locked = true
-				}
-				if strings.Contains(txt, "s.TIndex.Delete(") {
-					deleted = true
-				}
-				if is, ok := st.(*ast.IfStmt); ok && locked && !deleted && is.Init != nil {
-					if strings.ReplaceAll(c09NodeString(is.Init), " ", "") == "sz:=j.Size()" && strings.ReplaceAll(exprStr(is.Cond), " ", "") == "sz>0" {
-						unl, ret := false, false
-						for _, b := range is.Body.List {
-							bt := strings.ReplaceAll(c09NodeString(b), " ", "")
-							if strings.Contains(bt, "UnlockExclusively(") {
-								unl = true
-							}
-							if bt == "returnfalse" {
-								ret = true
-							}
+			pp.walk(dd, 2, func(n ast.Node, _ bool) {
+				switch s := n.(type) {
+				case *ast.CallExpr:
+					switch selName(s.Fun) {
+					case "LockExclusively":
+						locked = true
+					case "Delete":
+						if hasSel(s.Fun, "TIndex") {
+							deleted = true
 						}
-						recheck = unl && ret
 					}
+				case *ast.IfStmt:
+					if !locked || deleted {
+						return
+					}
+					// if [v := <j>.Size();] (v | <j>.Size()) > 0 { …UnlockExclusively…; return false }
+					be, ok := s.Cond.(*ast.BinaryExpr)
+					if !ok || be.Op != token.GTR {
+						return
+					}
+					if k, ok := intLit(be.Y); !ok || k != 0 {
+						return
+					}
+					sized := callsMethod(be.X, "Size")
+					if id, ok := be.X.(*ast.Ident); ok && s.Init != nil {
+						if as, ok := s.Init.(*ast.AssignStmt); ok && len(as.Lhs) == 1 && c09Norm(as.Lhs[0]) == id.Name && callsMethod(as.Rhs[0], "Size") {
+							sized = true
+						}
+					}
+					if !sized {
+						return
+					}
+					unl, ret := false, false
+					for _, b := range s.Body.List {
+						if callsMethod(b, "UnlockExclusively") {
+							unl = true
+						}
+						if rs, ok := b.(*ast.ReturnStmt); ok && len(rs.Results) == 1 && c09Norm(rs.Results[0]) == "false" {
+							ret = true
+						}
+					}
+					if unl && ret {
+						recheck = true
+					}
+				}
+			})
+		}
+
+		// ---------------------------------------------------------------------------------- tmindex chkInfo.update
+		indep, indepFound := false, false
+		tp := c09LoadPkg("pkg/tmindex")
+		if cf := parseFile("pkg/tmindex/cindex.go"); cf != nil {
+			if ud := funcDecl(cf, "chkInfo", "update"); ud != nil {
+				// which if-statements adjust MinTs / MaxTs, and is the MaxTs one hanging in an else branch of the MinTs one?
+				var minIf, maxIf *ast.IfStmt
+				maxInElseOfMin := false
+				adjusts := func(is *ast.IfStmt, field string, op token.Token) bool {
+					be, ok := is.Cond.(*ast.BinaryExpr)
+					if !ok || selName(be.X) != field || selName(be.Y) != field {
+						return false
+					}
+					// a.F > b.F  or the mirrored  b.F < a.F
+					mir := map[token.Token]token.Token{token.GTR: token.LSS, token.LSS: token.GTR}
+					a, b := c09Norm(be.X.(*ast.SelectorExpr).X), c09Norm(be.Y.(*ast.SelectorExpr).X)
+					if be.Op == mir[op] {
+						a, b = b, a
+					} else if be.Op != op {
+						return false
+					}
+					for _, st := range is.Body.List {
+						if as, ok := st.(*ast.AssignStmt); ok && len(as.Lhs) == 1 && c09Norm(as.Lhs[0]) == a+"."+field && c09Norm(as.Rhs[0]) == b+"."+field {
+							return true
+						}
+					}
+					return false
+				}
+				tp.walk(ud, 2, func(n ast.Node, _ bool) {
+					is, ok := n.(*ast.IfStmt)
+					if !ok {
+						return
+					}
+					if adjusts(is, "MinTs", token.GTR) {
+						minIf = is
+					}
+					if adjusts(is, "MaxTs", token.LSS) {
+						maxIf = is
+					}
+				})
+				if minIf != nil && maxIf != nil {
+					indepFound = true
+					if minIf.Else != nil && maxIf.Pos() >= minIf.Else.Pos() && maxIf.End() <= minIf.Else.End() {
+						maxInElseOfMin = true
+					}
+					if maxIf.Else != nil && minIf.Pos() >= maxIf.Else.Pos() && minIf.End() <= maxIf.Else.End() {
+						maxInElseOfMin = true // mirrored nesting: same defect
+					}
+					indep = !maxInElseOfMin
 				}
 			}
 		}
-		l.p("/-- `chkInfo.update` adjusts MinTs and MaxTs in two independent `if`s (true) or in `if … else if …` (false) -/")
+		if !indepFound {
+			problem("tmindex.chkInfo.update: the two adjustments of MinTs and MaxTs not found")
+		}
+
+		l.p("/-- `chkInfo.update` adjusts MinTs and MaxTs independently (true) or the one only when the other did not fire (false) -/")
 		l.p("def hullUpdateIndependentIfs : Bool := %s", leanBool(indep))
-		l.p("/-- `deleteJournal` re-checks `j.Size() > 0` (unlock, return false) between `LockExclusively` and `TIndex.Delete` -/")
+		l.p("/-- `deleteJournal` re-checks the journal's size (> 0: unlock, return false) between `LockExclusively` and `TIndex.Delete` -/")
 		l.p("def deleteJournalRechecksSize : Bool := %s", leanBool(recheck))
-		l.p("/-- `truncate` still calls `jrnl.Size()` for the total -/")
+		l.p("/-- `truncate` (or a helper it calls) reads `Size()` of the journal for the total -/")
 		l.p("def truncateReadsJournalSize : Bool := %s", leanBool(readsJournalSize))
-		l.p("/-- the total is accumulated as `size += sizes[i]` over the snapshot of the chunk sizes -/")
-		l.p("def totalIsSnapshotSum : Bool := %s", leanBool(totalIsSnapshotSum))
-		l.p("/-- a loop of `truncate` reads `cks[idx].Size()` again (instead of `sizes[idx]`) -/")
-		l.p("def loopsRereadChunkSize : Bool := %s", leanBool(loopsRereadChunkSize))
-		l.p("/-- `if tp.DryRun { <delta> -= ti.ChunksDeleted }` precedes the accumulation in `truncateGlobally` -/")
+		l.p("/-- the total is accumulated as `A[i] = uint64(c.Size()); total += A[i]` over one snapshot of the chunk sizes -/")
+		l.p("def totalIsSnapshotSum : Bool := %s", leanBool(snapshotSum))
+		l.p("/-- a chooser loop of `truncate` calls `Size()` again instead of using the snapshot -/")
+		l.p("def loopsRereadChunkSize : Bool := %s", leanBool(loopsReread))
+		l.p("/-- in a dry run `truncateGlobally` subtracts the entry's `ChunksDeleted` from the count it adds -/")
 		l.p("def dryDeltaSubtractsPhase1 : Bool := %s", leanBool(dryDeltaSubtracts))
-		l.p("/-- the predicate of the sorted insertion by latest timestamp in `Service.Truncate` -/")
-		l.p("def insertPredicate : String := %s", leanStr(tieBreak))
-		l.p("/-- the time loop of `truncate` compares `sc[idx].MaxTs < tp.OldestTs` (true) or `<=` (false) -/")
+		l.p("/-- the count `truncateGlobally` adds to `ChunksDeleted` starts as `len(<chunk list>)` -/")
+		l.p("def globalDeltaIsLenCks : Bool := %s", leanBool(deltaIsLen))
+		l.p("/-- the sorted insertion of `Service.Truncate` searches with `A.LatestTs < B.LatestTs || (A.LatestTs == B.LatestTs && A.Src >= B.Src)`,")
+		l.p("A the entry at the probed index, B the new entry -/")
+		l.p("def insertOrdersByTsDescThenSrcAsc : Bool := %s", leanBool(insertOK))
+		l.p("/-- the time loop of `truncate` compares `<chunk>.MaxTs < <params>.OldestTs` (true) or `<=` (false) -/")
 		l.p("def timeLoopStrict : Bool := %s", leanBool(strict))
-		l.p("/-- the size loop is entered only when `tp.MaxSrcSize > 0 && tp.MaxSrcSize > tp.MinSrcSize` -/")
+		l.p("/-- the size loop is entered only when `MaxSrcSize > 0 && MaxSrcSize > MinSrcSize` -/")
 		l.p("def sizeLoopGuarded : Bool := %s", leanBool(sizeGuard))
-		l.p("/-- the size loop's condition contains `size-uint64(cks[idx].Size()) >= tp.MinSrcSize` -/")
+		l.p("/-- the size loop's condition contains `<total> - <the chunk's size> >= MinSrcSize` -/")
 		l.p("def sizeLoopChecksMin : Bool := %s", leanBool(sizeChecksMin))
-		l.p("/-- the time loop's condition contains `size-uint64(cks[idx].Size()) >= tp.MinSrcSize` -/")
+		l.p("/-- the time loop's condition contains `<total> - <the chunk's size> >= MinSrcSize` -/")
 		l.p("def timeLoopChecksMin : Bool := %s", leanBool(timeChecksMin))
-		l.p("/-- `idx--` precedes the `DeleteChunks` call, whose id argument is `cks[idx].Id()` -/")
-		l.p("def deletesUpToIdxMinusOne : Bool := %s", leanBool(decr && delIdx))
-		l.p("/-- `if idx < 0 || tp.DryRun { return … }` stands between `idx--` and the `DeleteChunks` call -/")
+		l.p("/-- `DeleteChunks` is given the id of the chunk just before the (exclusive) index the loops stopped at -/")
+		l.p("def deletesUpToIdxMinusOne : Bool := %s", leanBool(delMinusOne))
+		l.p("/-- nothing chosen or DRYRUN: `truncate` leaves before the `DeleteChunks` call -/")
 		l.p("def dryRunReturnsBeforeDelete : Bool := %s", leanBool(dryGuard))
 		l.p("/-- `truncateGlobally` calls `truncate` with these literal `MinSrcSize` / `MaxSrcSize` -/")
 		l.p("def globalMinSrcSize : Nat := %d", gmin)
 		l.p("def globalMaxSrcSize : Nat := %d", gmax)
-		l.p("/-- what `truncateGlobally` adds to `ti.ChunksDeleted` for a partition it takes -/")
-		l.p("def globalChunksDelta : String := %s", leanStr(dryDelta))
 		l.write()
 	}
 }
